@@ -47,7 +47,8 @@ def cases(draw):
         # a translation that puts one destination exactly on the origin (logical 0 is a legal coordinate)
         m = moves[draw(st.integers(0, len(moves) - 1))]
         par[0], par[1] = -m[1], -m[2]
-    return {"regions": regions, "ops": ops, "xf": xf, "cut": cut, "par": par, "g90e": False}
+    return {"regions": regions, "ops": ops, "xf": xf, "cut": cut, "par": par, "g90e": False,
+            "spell": draw(st.sampled_from(["plain", "plain", "compact", "plus"]))}
 
 
 def strategy(tier):
@@ -71,10 +72,26 @@ def render(case, variant):  # noqa: C901  pylint: disable=too-many-branches,too-
         prog.append((None, "G1 X1 Y1"))
     nd = 9
 
+    style = case.get("spell", "plain") if variant else "plain"
+
+    def num(v):
+        t = gen.fmt(v, nd)
+        if style == "compact":
+            # legal compact spellings: no leading zero, trailing point for integers
+            if t.startswith("0."):
+                t = t[1:]
+            elif t.startswith("-0."):
+                t = "-" + t[2:]
+            elif "." not in t:
+                t += "."
+        elif style == "plus" and not t.startswith("-"):
+            t = "+" + t
+        return t
+
     def word(axis, cur, new, sh):
         if rel:
-            return " %s%s" % (axis, gen.fmt((new - cur) / u, nd))
-        return " %s%s" % (axis, gen.fmt((new - sh) / u, nd))
+            return " %s%s" % (axis, num((new - cur) / u))
+        return " %s%s" % (axis, num((new - sh) / u))
 
     for idx, op in enumerate(case["ops"]):
         if variant and idx == cut:
